@@ -18,6 +18,7 @@ import (
 	"google.golang.org/grpc/codes"
 	"google.golang.org/grpc/metadata"
 	"google.golang.org/grpc/status"
+	"google.golang.org/protobuf/encoding/protowire"
 	"google.golang.org/protobuf/proto"
 	"google.golang.org/protobuf/reflect/protoreflect"
 	"google.golang.org/protobuf/types/known/anypb"
@@ -41,6 +42,7 @@ type chunk struct {
 	ID, Text, Script, Tag string
 	Seq                   int32
 	Data                  []byte
+	Unknown               []byte // unknown-field set (wire format)
 }
 
 func (c chunk) msg() proto.Message {
@@ -64,13 +66,60 @@ func (c chunk) msg() proto.Message {
 	if c.Tag != "" {
 		r.Set(cf("tag"), protoreflect.ValueOfString(c.Tag))
 	}
+	if len(c.Unknown) > 0 {
+		r.SetUnknown(protoreflect.RawFields(c.Unknown))
+	}
 	return m
 }
+
+// unknownFields builds an unknown-field set of a kind: fields vf.Chunk does
+// not declare (a client or back-end built from a newer revision).
+func unknownFields(kind string, salt int) []byte {
+	var b []byte
+	add := func(k string) {
+		switch k {
+		case "varint":
+			b = protowire.AppendTag(b, 100, protowire.VarintType)
+			b = protowire.AppendVarint(b, uint64(salt)*1000003+7)
+		case "bytes":
+			b = protowire.AppendTag(b, 101, protowire.BytesType)
+			b = protowire.AppendBytes(b, []byte(fmt.Sprintf("unknown-%d\x00\xff", salt)))
+		case "fixed32":
+			b = protowire.AppendTag(b, 102, protowire.Fixed32Type)
+			b = protowire.AppendFixed32(b, uint32(salt)+0xfffffff0)
+		case "fixed64":
+			b = protowire.AppendTag(b, 103, protowire.Fixed64Type)
+			b = protowire.AppendFixed64(b, uint64(salt)<<40+5)
+		case "nested": // a length-delimited field holding a message with fields of its own
+			var in []byte
+			in = protowire.AppendTag(in, 1, protowire.VarintType)
+			in = protowire.AppendVarint(in, uint64(salt))
+			in = protowire.AppendTag(in, 2, protowire.BytesType)
+			in = protowire.AppendBytes(in, []byte("inner"))
+			b = protowire.AppendTag(b, 104, protowire.BytesType)
+			b = protowire.AppendBytes(b, in)
+		case "high-number":
+			b = protowire.AppendTag(b, 536870911, protowire.VarintType)
+			b = protowire.AppendVarint(b, 1)
+		}
+	}
+	if kind == "all" {
+		for _, k := range []string{"varint", "bytes", "fixed32", "fixed64", "nested", "high-number"} {
+			add(k)
+		}
+	} else {
+		add(kind)
+	}
+	return b
+}
+
+var unknownKinds = []string{"varint", "bytes", "fixed32", "fixed64", "nested", "high-number", "all"}
 
 // readChunk extracts the fields of a received message by field number, so it
 // works whatever descriptor instance the message was built from.
 func readChunk(m proto.Message) chunk {
 	var c chunk
+	c.Unknown = append([]byte(nil), m.ProtoReflect().GetUnknown()...)
 	m.ProtoReflect().Range(func(fd protoreflect.FieldDescriptor, v protoreflect.Value) bool {
 		switch fd.Number() {
 		case 1:
@@ -106,6 +155,9 @@ func (c chunk) sum(callID string) string {
 		hs.Write([]byte(c.Script))
 		sc = fmt.Sprintf(" script#%08x", hs.Sum32())
 	}
+	if len(c.Unknown) > 0 {
+		sc += fmt.Sprintf(" unknown-fields=%x", c.Unknown)
+	}
 	return fmt.Sprintf("{id=%s seq=%d text=%q tag=%q data=%d#%08x%s}", id, c.Seq, c.Text, c.Tag, len(c.Data), h.Sum32(), sc)
 }
 
@@ -130,6 +182,7 @@ type Inv struct {
 	RecvErr  string
 	Sent     int
 	SendErr  string
+	Deadline string // bucket of ctx.Deadline() at handler entry: none | <1min | >=1min
 	State    string // what the handler is doing right now
 	Finished bool
 	done     chan struct{}
@@ -148,6 +201,7 @@ type InvT struct {
 	Recv     []string            `json:"recv"`
 	EOFAfter int                 `json:"eof_after"`
 	RecvErr  string              `json:"recv_err,omitempty"`
+	Deadline string              `json:"deadline,omitempty"`
 	Sent     int                 `json:"sent"`
 	SendErr  string              `json:"send_err,omitempty"`
 	State    string              `json:"state"`
@@ -161,7 +215,7 @@ func (i *Inv) snapshot() InvT {
 	for k, v := range i.MD {
 		md[k] = append([]string(nil), v...)
 	}
-	return InvT{Method: i.Method, MD: md, Recv: append([]string(nil), i.Recv...), EOFAfter: i.EOFAfter, RecvErr: i.RecvErr,
+	return InvT{Method: i.Method, MD: md, Recv: append([]string(nil), i.Recv...), EOFAfter: i.EOFAfter, RecvErr: i.RecvErr, Deadline: i.Deadline,
 		Sent: i.Sent, SendErr: i.SendErr, State: i.State, Finished: i.Finished}
 }
 
@@ -344,7 +398,7 @@ func inList(l []int, k int) bool {
 }
 
 func (c chunk) zero() bool {
-	return c.ID == "" && c.Seq == 0 && len(c.Data) == 0 && c.Text == "" && c.Script == "" && c.Tag == ""
+	return len(c.Unknown) == 0 && c.ID == "" && c.Seq == 0 && len(c.Data) == 0 && c.Text == "" && c.Script == "" && c.Tag == ""
 }
 
 func (b *Scripted) reply(id string, k int, p *planWire) proto.Message {
@@ -355,6 +409,9 @@ func (b *Scripted) reply(id string, k int, p *planWire) proto.Message {
 		return chunk{Seq: int32(k + 1)}.msg() // two bytes
 	}
 	c := chunk{ID: id, Seq: int32(k), Tag: b.Tag, Text: fmt.Sprintf("reply-%d", k)}
+	if p.Unk != "" {
+		c.Unknown = unknownFields(p.Unk, 500+k)
+	}
 	if p.BigRep == k {
 		c.Data = bigPayload(k)
 	} else {
@@ -363,9 +420,23 @@ func (b *Scripted) reply(id string, k int, p *planWire) proto.Message {
 	return c.msg()
 }
 
+// deadlineBucket classifies the deadline the handler's context carries.
+// The buckets are far apart (scripts use no deadline, about ten seconds, or
+// five minutes), so the classification does not depend on timing.
+func deadlineBucket(ctx context.Context) string {
+	dl, ok := ctx.Deadline()
+	switch {
+	case !ok:
+		return "none"
+	case time.Until(dl) < time.Minute:
+		return "<1min"
+	}
+	return ">=1min"
+}
+
 func (b *Scripted) begin(ctx context.Context, md protoreflect.MethodDescriptor) (*Inv, string, bool, string) {
 	cmd, id, plan := customMD(ctx)
-	inv := &Inv{Method: vschema.FullMethod(md), MD: cmd, EOFAfter: -1, State: "start", done: make(chan struct{})}
+	inv := &Inv{Method: vschema.FullMethod(md), MD: cmd, EOFAfter: -1, State: "start", done: make(chan struct{}), Deadline: deadlineBucket(ctx)}
 	attached := false
 	if id != "" {
 		attached = b.Reg.attach(id, inv)
@@ -557,7 +628,7 @@ func (b *Scripted) runSteps(p *planWire, id string, single bool, recv func(strin
 					}
 					break
 				}
-				echo := chunk{ID: c.ID, Seq: c.Seq, Tag: b.Tag, Text: "echo:" + c.Text, Data: c.Data}
+				echo := chunk{ID: c.ID, Seq: c.Seq, Tag: b.Tag, Text: "echo:" + c.Text, Data: c.Data, Unknown: c.Unknown}
 				if c.zero() {
 					echo = chunk{} // an empty message is answered by an empty one
 				}
